@@ -7,6 +7,7 @@ import Klev.Proofs.SearchTie
 import Klev.Proofs.SegSearch
 import Klev.Proofs.ConsumeOK
 import Klev.Proofs.ReadInv
+import Klev.Proofs.Witness
 namespace Klev.C03
 
 /-- **Refinement.** On every log state satisfying the invariant `Inv` (multi-segment, holes
@@ -66,6 +67,33 @@ theorem search_tie_consume (items : List Item) (bases : List Int) (off : Int) :
   ⟨Klev.indexConsume_tie items off, Klev.segConsume_tie bases off⟩
 
 end Klev.C03
+
+/-! ### Non-vacuity: the theorems at the witness log `Witness.wL`, its derived index
+`Witness.wIdx` (offsets 0 1 2 4 5 6 8) and its segment bases `[0, 2, 5, 8]` -/
+section NonVacuity
+open Klev Klev.Witness
+
+example := Klev.C03.consume_ok wL wL_inv 3 2 (by decide)
+example := Klev.C03.consume_ok wL wL_inv offsetOldest 1 (by decide)
+example := Klev.C03.consume_ok wL wL_inv 9 5 (by decide)
+example := Klev.C03.consume_inv wL wL_inv 7 4
+example := Klev.C03.index_consume_spec wIdx 3 wIdx_sortedOff
+example := Klev.C03.segment_consume_spec (bases wL) 4 wL_bases_sorted (by decide) (by decide) (by decide)
+  (by decide)
+example := Klev.C03.segment_consume_first (bases wL) offsetOldest (by decide) (Or.inl rfl)
+example := Klev.C03.segment_consume_first (bases wL) 0 (by decide) (Or.inr (by decide))
+
+-- evaluated: from the hole at 3 the cursor lands on 4; from the deleted tail 7 it hands off to
+-- the next segment; at NextOffset it is caught up; beyond it fails
+example : (wL.consume 3 2).2 = .ok (5, [⟨4, 30, [6], []⟩]) := by decide
+example : (wL.consume 7 4).2 = .ok (9, [⟨8, 50, [2], [8]⟩]) := by decide
+example : (wL.consume offsetOldest 1).2 = .ok (1, [⟨0, 10, [1], [1]⟩]) := by decide
+example : (wL.consume 9 5).2 = .ok (9, []) ∧ (wL.consume offsetNewest 5).2 = .ok (9, []) ∧
+    (wL.consume 10 5).2 = .err .invalidOffset := by decide
+example : Index.consume wIdx 3 = .ok (122, 235) ∧ Index.consume wIdx 9 = .error .afterEnd := by decide
+example : SegSearch.consume (bases wL) 4 = .ok 1 ∧ SegSearch.consume (bases wL) 7 = .ok 2 := by decide
+
+end NonVacuity
 
 #print axioms Klev.C03.consume_ok
 #print axioms Klev.C03.consume_inv
